@@ -75,6 +75,34 @@ pub enum LeafKind {
     FromIter,
     /// `signal::from_interleaved_samples_iter` with `extra` trailing samples (< channels)
     FromInterleaved { extra: usize },
+    /// `signal::from_iter` over a NON-fused iterator: `len` frames, `nones` times None, then frames again.
+    /// A finite signal ends exactly once: the revived items must never be seen.
+    FromIterRevive { nones: u8 },
+    /// the same for `from_interleaved_samples_iter`
+    FromInterleavedRevive { nones: u8 },
+}
+
+/// iterator that yields `len` items, then `nones` x None, then items again forever (not fused)
+pub struct Revive<T, G: Fn(u64) -> T> {
+    i: u64,
+    len: u64,
+    nones: u64,
+    g: G,
+}
+impl<T, G: Fn(u64) -> T> Iterator for Revive<T, G> {
+    type Item = T;
+    fn next(&mut self) -> Option<T> {
+        if self.i < self.len {
+            self.i += 1;
+            Some((self.g)(self.i - 1))
+        } else if self.nones > 0 {
+            self.nones -= 1;
+            None
+        } else {
+            self.i += 1;
+            Some((self.g)(self.i - 1))
+        }
+    }
 }
 
 #[derive(Clone, Debug, Serialize, Deserialize)]
@@ -284,6 +312,16 @@ where
                 let tail: Vec<F::Sample> = F::leaf(l).channels().take((*extra).min(F::CHANNELS - 1)).collect();
                 samples.extend(tail);
                 erase(signal::from_interleaved_samples_iter::<_, F>(samples.into_iter()))
+            }
+            LeafKind::FromIterRevive { nones } => {
+                let l = len.expect("iterator leaves are finite");
+                erase(signal::from_iter(Revive { i: 0, len: l, nones: (*nones).max(1) as u64, g: |k| F::leaf(k) }))
+            }
+            LeafKind::FromInterleavedRevive { nones } => {
+                let l = len.expect("iterator leaves are finite");
+                let c = F::CHANNELS as u64;
+                let it = Revive { i: 0, len: l * c, nones: (*nones).max(1) as u64, g: move |k: u64| F::leaf(k / c).channels().nth((k % c) as usize).unwrap() };
+                erase(signal::from_interleaved_samples_iter::<_, F>(it))
             }
         },
         Node::Map(c) => erase(build::<F>(c, b).map(|f: F| f.scale_amp(F::gain(-1.0)))),
